@@ -75,11 +75,12 @@ func NewEvaluator(params ParameterProvider, evk EvaluationKeySet) (eval *Evaluat
 
 	eval.EvaluationKeySet = evk
 
-	var AutomorphismIndex map[uint64][]uint64
+	// Never nil: CheckAndGetGaloisKey (value receiver) fills it lazily for keys that are
+	// added to the key set after the evaluator was created.
+	AutomorphismIndex := make(map[uint64][]uint64)
 
 	if !utils.IsNil(evk) {
 		if galEls := evk.GetGaloisKeysList(); len(galEls) != 0 {
-			AutomorphismIndex = make(map[uint64][]uint64)
 
 			N := p.N()
 			NthRoot := p.RingQ().NthRoot()
@@ -266,10 +267,10 @@ func cloneAutomorphismIndex(m map[uint64][]uint64) map[uint64][]uint64 {
 // and where the temporary buffers are shared. The receiver and the returned evaluators cannot be used concurrently.
 func (eval Evaluator) WithKey(evk EvaluationKeySet) *Evaluator {
 
-	var AutomorphismIndex map[uint64][]uint64
+	// Never nil, see NewEvaluator.
+	AutomorphismIndex := make(map[uint64][]uint64)
 
 	if galEls := evk.GetGaloisKeysList(); len(galEls) != 0 {
-		AutomorphismIndex = make(map[uint64][]uint64)
 
 		N := eval.params.N()
 		NthRoot := eval.params.RingQ().NthRoot()
